@@ -112,8 +112,8 @@ theorem finish_retried (c : Cfg) (ar aq : Nat) (s : S) (h : Inv c ar aq s) (hrun
       · exact hh
       · rw [hge0] at hh; cases hh
     unfold retried at hb1 h3' ⊢
-    obtain ⟨k0, k1, k2, k3, k4, k5, k6, k7, k8, k9, k10, k11, k12, k13, k14, k15, k16, k17, k18, k19, k20, k21, k22, k23, k24, k25, k26, k27, k28, k29, k30, k31, k32⟩ := h
-    refine ⟨k0, hb1.k1, hb1.k2, h3', hb1.k4, k5, k6, ?_, ?_, k9, hb1.k10, hb1.k11, k12, hb1.k13, hb1.k14, ?_, ?_, ?_, ?_, ?_, hb1.k20, hb1.k21, hb1.k22, ?_, ?_, k25, ?_, ?_, ?_, ?_, ?_, hb1.k31, ?_⟩
+    obtain ⟨k0, k1, k2, k3, k4, k5, k6, k7, k8, k9, k10, k11, k12, k13, k14, k15, k16, k17, k18, k19, k20, k21, k22, k23, k24, k25, k26, k27, k28, k29, k30, k31, k32, k33⟩ := h
+    refine ⟨k0, hb1.k1, hb1.k2, h3', hb1.k4, k5, k6, ?_, ?_, k9, hb1.k10, hb1.k11, k12, hb1.k13, hb1.k14, ?_, ?_, ?_, ?_, ?_, hb1.k20, hb1.k21, hb1.k22, ?_, ?_, k25, ?_, ?_, ?_, ?_, ?_, hb1.k31, ?_, (fun hh => absurd hh (by simp [hcl]))⟩
     · intro _; exact ⟨rfl, hdir⟩
     · intro _; exact ⟨by show s.pass ≤ 1; omega, Or.inl hps⟩
     · intro _ hh; simp [hp, Phase.next, upPhase] at hh
